@@ -41,7 +41,10 @@ def allocate_on_buffer(size, context=None, buffer=None, offset=None):
     elif offset == "packed":
         offset = buffer.allocate(size, align=False)
 
-    # if offset is provided by the user we assume that we can write there
+    else:
+        # if offset is provided by the user we assume that we can write there
+        # (as a python integer: field offsets are added to it)
+        offset = int(offset)
 
     return buffer, offset
 
